@@ -105,6 +105,8 @@ def gen_steps(rnd, cfg, nwrites, start_s=None, irregular=None, gop=None, changes
             d = s["dur"]
             if irregular:
                 d = rnd.choice([d, d, d // 2, d * 2, d + 1, max(1, d - 7), 90])
+                if s["codec"] != "h264" and rnd.random() < 0.04:
+                    d = 0          # equal DTS is legal (non-decreasing); H264's DTS extractor rejects it
             s["dts"] += d
             s["n"] += 1
         elif s["codec"] == "aac":
@@ -277,5 +279,28 @@ def track_lists(rnd, n_scripts):
                 t["def"] = True        # documented as "for audio renditions only": must be ignored
         steps = gen_steps(rnd, cfg, rnd.randint(30, 70), start_s=0, irregular=False, gop=rnd.choice([3, 5]), changes=0.25,
                           vdur=rnd.choice([9000, 4500]))
+        out.append({"cfg": cfg, "steps": steps})
+    return out
+
+
+def zero_duration_segment(rnd, n_scripts):
+    """A forced cut (parameter change) on a random-access unit whose DTS equals that of the unit that opened the
+    segment: a published segment of duration zero (legal input: DTS is non-decreasing; VP9 / AV1 have no DTS check)."""
+    out = []
+    for i in range(n_scripts):
+        v = ("fmp4", "ll")[i % 2]
+        codec = rnd.choice(["vp9", "av1"])
+        cfg = make_cfg(rnd, v, tracks=[codec] + rnd.choice([[], ["aac"]]), seg_min_ms=500, part_min_ms=100, query="")
+        steps, d, gen = [], 0, 1
+        k = rnd.randint(2, 5)
+        for seg in range(8):
+            steps.append({"t": 0, "dts": d, "ra": 1, "ps": gen, "size": 20, "n": 1})
+            if seg == k:
+                gen = 3 - gen
+                steps.append({"t": 0, "dts": d, "ra": 1, "ps": gen, "size": 20, "n": 1})   # same DTS, new parameters
+            for f in range(5):
+                d += 9000
+                steps.append({"t": 0, "dts": d, "ra": 0, "ps": 0, "size": 20, "n": 1})
+            d += 9000
         out.append({"cfg": cfg, "steps": steps})
     return out
